@@ -1228,6 +1228,49 @@ def delivery_battery(ctx):
     return None
 
 
+def parser_statics(ctx):
+    """bodies of the tokenizer (json_parser.rs, reader.rs) that mention a thread-local, a static or a cell type: state that
+    is not in the Reader and so is shared by all readers and survives every call"""
+    CELL = re.compile(r'\b(LocalKey|RefCell|Cell|OnceCell|OnceLock|Mutex|RwLock|Atomic\w+|LazyLock|LazyCell|static mut)\b')
+    hits = []
+    for n, f in ctx.fns.items():
+        if not re.match(r'^(json_parser|reader)::', n): continue
+        why = None
+        for ty in f.locals.values():
+            m = CELL.search(ty or '')
+            if m: why = m.group(1); break
+        if why is None:
+            for bb in (f.blocks.values() if isinstance(f.blocks, dict) else f.blocks):
+                if bb.term.kind == 'call' and CELL.search(bb.term.data.get('func') or ''): why = CELL.search(bb.term.data['func']).group(1); break
+        if why: hits.append((n, why))
+    return hits
+
+
+def statics_battery(ctx):
+    """what a malformed text leaves behind must not reach the next value, in the same stream or in the next file"""
+    import subprocess, tempfile
+    from .cli import run_driver, show
+    exe = ctx.tree.binary()
+    tails = [b'"def" {"k":"v"} ["x"]', b'12 "s" [1.5]', b'{"a":{"b":"c"}}']
+    bads = [b'"abc', b'"ab\\q"', b'"\\u12G4"', b'[1, "zz', b'{"k": "vv', b'"\\ud800x"', b'-', b'1e', b'tru']
+    with tempfile.TemporaryDirectory() as td:
+        for bad in bads:
+            for tail in tails:
+                f1 = os.path.join(td, 'f1.json'); f2 = os.path.join(td, 'f2.json'); open(f1, 'wb').write(bad); open(f2, 'wb').write(tail)
+                a = subprocess.run([exe, '--style', 'consise', f1, f2], stdout=subprocess.PIPE, stderr=subprocess.PIPE, timeout=20)
+                b1 = subprocess.run([exe, '--style', 'consise', f1], stdout=subprocess.PIPE, stderr=subprocess.PIPE, timeout=20)
+                b2 = subprocess.run([exe, '--style', 'consise', f2], stdout=subprocess.PIPE, stderr=subprocess.PIPE, timeout=20)
+                if a.stdout != b1.stdout + b2.stdout or a.returncode != 0:
+                    return {'what': 'two files: the first ends inside a malformed value', 'file1': repr(bad), 'file2': repr(tail), 'together': show(a.stdout)[:200], 'separately': show(b1.stdout + b2.stdout)[:200]}
+                stream = bad + b'\n' + tail
+                r = run_driver(ctx, ['--style', 'consise'], stream); r1 = run_driver(ctx, ['--style', 'consise'], bad + b'\n'); r2 = run_driver(ctx, ['--style', 'consise'], tail)
+                # within one stream the malformed text may swallow what follows on its line only up to where the grammar resynchronises; a
+                # line feed does not end a string, so only compare when the malformed text alone gives the same rows as followed by a line feed
+                if bad[:1] != b'"' and b'"' not in bad and (r['stdout'] != r1['stdout'] + r2['stdout']):
+                    return {'what': 'one stream: a malformed text on a line of its own, then healthy values', 'stdin': repr(stream), 'together': show(r['stdout'])[:200], 'separately': show(r1['stdout'] + r2['stdout'])[:200]}
+    return None
+
+
 def reader_delivery(ctx, fam_name='tok.delivery'):
     """called by the properties that rest on the tokenizer scenarios when the Reader is not the one the scenarios model"""
     run = ctx.run
@@ -1235,6 +1278,14 @@ def reader_delivery(ctx, fam_name='tok.delivery'):
     fam = run.family(fam_name, 'the reader pulls its input one byte at a time through io::Bytes, so how the bytes are delivered (block sizes, line breaks, an endless stream) cannot matter; a reader that buffers on its own is outside the tokenizer model and is confronted with the delivery battery')
     fam.need_witness = False
     fam.obligations += 1
+    hits = parser_statics(ctx)
+    if hits:
+        fam.obligations += 1
+        c = Candidate(fam_name, 'parser-static-state', f'the tokenizer keeps state outside the Reader ({hits[0][1]} in {hits[0][0][-60:]}): it is shared by all readers and survives every call', {'bodies': [h[0] for h in hits][:5]}, unmodelled='static state: ' + hits[0][1])
+        bad = statics_battery(ctx)
+        if bad: c.status = 'reproduced'; c.replay = bad; c.unmodelled = None; c.text += ' - ' + bad['what']
+        else: c.status = 'inconclusive'
+        fam.candidates.append(c)
     if known:
         fam.discharged += 1; fam.add_sample({'premise': 'Reader { bytes: io::Bytes<R>, current_byte, location, eof }, Reader::next pulls from Bytes::next and nothing else reads', 'verdict': 'delivery-independent by construction'})
         return True
